@@ -93,6 +93,14 @@ def scalars_wide():
 COMMON_FACTORS = [1.0, 1.0, 1.0, 1e-9, -1e-5, 1e5, 3e8]
 
 
+def scalars_any():
+    """one non-zero factor: ordinary, or (one draw in four) an ordinary one times a factor of
+    another order of magnitude"""
+    return st.one_of(scalars_pm(), scalars_pm(), scalars_pm(),
+                     st.builds(lambda c, s: c * s, st.sampled_from(COMMON_FACTORS),
+                               scalars_pm()))
+
+
 def scale_lists(draw, *counts):
     """"arbitrary non-zero scalars": lists of per-unit factors (scalars_wide) times one
     factor common to the whole case, which may be of quite another order of magnitude
